@@ -147,7 +147,7 @@ Lemma cut_above ej v q k x s1 :
   In k (w_calls w) -> c_req k = ReqAE q -> n_term v <= ae_term q ->
   spliced (seg_of_log (n_log v)) (seg_of_req q) s1 x -> e_index ej < x.
 Proof.
-  intros He Hnd Hv F Hm Hk Eq Hterm (Hx1 & Hbx & F0 & F1 & F2 & F3 & F4 & F6).
+  intros He Hnd Hv F Hm Hk Eq Hterm (Hx1 & Hbx & F0 & F1 & F2 & F3 & F4 & F6 & F7).
   set (sl := seg_of_log (n_log v)) in *. set (sq := seg_of_req q) in *.
   assert (Hsl : is_seg w sl) by (left; exists v; auto). assert (Hsq : is_seg w sq) by (right; exists k, q; auto).
   pose proof (lc_a C w HI ej v He Hnd Hv Hm) as Hh. fold sl in Hh. destruct (eget_range _ _ _ Hh) as [_ Hjtop].
@@ -450,7 +450,7 @@ Proof.
   destruct (seg_cases C HCnd w l Hst Hns HA s' Hs) as [Hso|n n' Hn Hn' Eid Hp -> HK|m k' q Hk' Eq Es Hm Hrole Htq Hd Hsub Hbq ->].
   - apply (lc_b C w HI ej s' i' e' Hold Hnd Hso E' HT Hb).
   - assert (Hsn : is_seg w (seg_of_log (n_log n))) by (left; exists n; auto).
-    destruct HK as [El|r e0 Er Er' Ei Et Erole Efr Ept Hlead Hie|k q x F Hk Eq Ed -> Hterm (Hx1 & Hbx & F0 & F1 & F2 & F3 & F4 & F6)].
+    destruct HK as [El|r e0 Er Er' Ei Et Erole Efr Ept Hlead Hie|k q x F Hk Eq Ed -> Hterm (Hx1 & Hbx & F0 & F1 & F2 & F3 & F4 & F6 & F7)].
     + rewrite El in *. apply (lc_b C w HI ej _ i' e' Hold Hnd Hsn E' HT Hb).
     + (* the log of a leader: it holds every live entry of a lower term *)
       destruct (N.le_gt_cases i' (N.of_nat (length r))) as [Hle|Hgt].
